@@ -80,6 +80,19 @@ def attr_decls(text):
             out.append((m.group(1), d.group(1), d.group(2), d.group(3)))
     return out
 
+def unwritten_required_nsdecl(text):
+    """an ATTLIST definition `xmlns` / `xmlns:p` is #REQUIRED and an element of that type does not write it: since /repo
+    bf629dc (D67) nothing is materialised for it (namespace_attributes() takes default VALUES only, attributes() skips
+    namespace declarations) -- unlike an ordinary #REQUIRED attribute (D36).  Only counted (evidence)."""
+    import re
+    body = re.sub(r'<!DOCTYPE.*?\]\s*>', '', text, flags=re.S)
+    for el, a, ty, dflt in attr_decls(text):
+        if dflt == '#REQUIRED' and (a == 'xmlns' or a.startswith('xmlns:')):
+            for m in re.finditer(r'<%s(?=[\s/>])([^>]*)>' % re.escape(el), body):
+                if not re.search(r'(^|\s)%s\s*=' % re.escape(a), m.group(1)):
+                    return True
+    return False
+
 def entity_with_ws_referenced_in_content(text):
     """a general entity whose literal contains tab / LF / CR (literally or as a character reference) is
     referenced (directly or through another entity) outside attribute values"""
@@ -234,6 +247,16 @@ PROFILE_EXTRA = [
     ('attlist', '<!DOCTYPE a [<!ENTITY e "v"><!ATTLIST a x CDATA "&e;">]><a/>'),
     ('attlist', '<!DOCTYPE a [<!ATTLIST b x CDATA "d">]><a><b/><b x="s"/></a>'),
     ('attlist', '<!DOCTYPE a [<!ATTLIST a xmlns:p CDATA "u">]><a xmlns:p="v"/>'), ('attlist', '<!DOCTYPE a [<!ATTLIST a xmlns CDATA "u">]><a xmlns="v"/>'),    # D65 (repaired in 703c414)
+    # D67 (repaired in bf629dc): namespace declarations supplied by ATTLIST defaults move from attributes() to namespace_attributes()
+    ('attlist-nsdefault', '<!DOCTYPE r [<!ATTLIST r xmlns:p CDATA "urn:p" xmlns CDATA "urn:d">]><r><p:a p:x="1"/></r>'),
+    ('attlist-nsdefault', '<!DOCTYPE a [<!ATTLIST a xmlns CDATA "">]><a/>'), ('attlist-nsdefault', '<!DOCTYPE a [<!ATTLIST a xmlns:p CDATA #FIXED "u">]><a p:x="1"/>'),
+    ('attlist-nsdefault', '<!DOCTYPE a [<!ATTLIST a xmlns:p CDATA #IMPLIED xmlns CDATA #IMPLIED>]><a/>'),
+    ('attlist-nsdefault', '<!DOCTYPE a [<!ATTLIST a xmlns:p CDATA #REQUIRED>]><a xmlns:p="v"/>'),
+    ('attlist-nsdefault', '<!DOCTYPE a [<!ATTLIST p:b xmlns:p CDATA "u" xmlns:q CDATA "w" q:y CDATA "d">]><a><p:b/><p:b xmlns:p="v" q:y="s"/></a>'),
+    ('attlist-nsdefault', '<!DOCTYPE a [<!ATTLIST a xmlns:p CDATA "u"><!ATTLIST a xmlns:p CDATA "w" xmlns:q CDATA "w">]><a x="1"/>'),
+    ('attlist-nsdefault', '<!DOCTYPE a [<!ATTLIST a xmlns:p CDATA #IMPLIED xmlns:p CDATA "w" y NMTOKENS " 1  2 ">]><a/>'),
+    ('attlist-nsdefault', '<!DOCTYPE a [<!ENTITY e "urn:e"><!ATTLIST a xmlns:p CDATA " &e; " xmlns NMTOKEN " t ">]><a/>'),
+    ('attlist-nsdefault-required', '<!DOCTYPE a [<!ATTLIST a xmlns:p CDATA #REQUIRED>]><a/>'),
     ('doctype', '<!DOCTYPE p:a [<!ELEMENT p:a EMPTY>]><p:a xmlns:p="u"/>'),
     ('doctype', '<!DOCTYPE a [<?p in dtd?><!--c--><!NOTATION n SYSTEM "s"><!ENTITY u SYSTEM "f" NDATA n><!ENTITY u SYSTEM "g" NDATA n>]><a/>'),
     ('pi', '<?p?><a/>'), ('pi', '<?p ?><a/>'), ('pi', '<?p   x ?><a/>'), ('pi', '<a><?p a?b?></a><?q  ?>'),
@@ -309,6 +332,19 @@ def check(run):
             failures.append((t, 'generated', 'accept', Rt, den, 'raw', g))
     # ---- (2) hand-written documents of the profile
     hand = [(fam, d) for fam, d, e10, ens in W.crafted() if ens] + PROFILE_EXTRA
+    # generated documents whose DTD supplies namespace declarations (and prefixed attributes) by default: the documents of
+    # the C10 campaign (checks/C10.py random_dtd_case / small_universe_dtd), here through the infoset and the dom view
+    from . import C10 as _C10
+    nsd = []
+    uni = _C10.small_universe(run.rng)
+    for i, dd in enumerate(run.rng.sample(uni, 130 if run.tier == 'quick' else 1300)):
+        fam, doc, dtd = _C10.small_universe_dtd(run.rng, dd, i)
+        nsd.append((doc, dtd))
+    for _ in range(400 if run.tier == 'quick' else 6000):
+        nsd.append(_C10.random_dtd_case(run.rng))
+    nsd = [('attlist-nsdefault-generated', _C10.render_case_xml({'doc': doc, 'dtd': dtd})) for doc, dtd in nsd if _C10.nswf(_C10.apply_defaults(dtd, doc))]
+    run.extra['generated_with_attlist_namespace_defaults'] = len(nsd)
+    hand += nsd
     sv = W.spec_verdicts(run, [d for _, d in hand], 'd')
     docs2 = []
     for (fam, d), (x10, ns, inf) in zip(hand, sv):
@@ -351,6 +387,9 @@ def check(run):
     if mok.get('wfview'):
         vt = texts + [d for _, d, _ in docs2]
         _, vm = lib.run_bin(lib.model_bin('wfview'), ['wfview'], ['d ' + lib.enc(t) for t in vt], timeout=2400, shards=lib.NPROC)
+        run.extra['dom_view_unwritten_required_nsdecl'] = sum(1 for t in vt if unwritten_required_nsdecl(t))
+        run.extra['dom_view_with_defaulted_namespace_declaration'] = sum(
+            1 for t in vt if any((a == 'xmlns' or a.startswith('xmlns:')) and (dflt[0] != '#' or dflt.startswith('#FIXED')) for _, a, _, dflt in attr_decls(t)))
         vd = [(t, a, b) for t, a, b in zip(vt, impl + impl2, vm + ['crash'] * (len(vt) - len(vm))) if a != b]
         run.extra['dom_view_compared'], run.extra['dom_view_differences'] = len(vt), len(vd)
         for t, a, b in vd[:5]:
